@@ -12,7 +12,7 @@ Section Subst.
   Variable Sig : string -> Z * bool * bool.
   Definition IdQ (n : string) (w : Z) (r t : bool) : bool :=
     (w =? fst (fst (Sig n))) && Bool.eqb r (snd (fst (Sig n))) && Bool.eqb t (snd (Sig n)).
-  Notation wfq := (wf IdQ).
+  Notation wfq := (wf false IdQ).
 
   Variable s : pool.
   Definition binding_ok (kv : expr * expr) : Prop :=
@@ -79,7 +79,7 @@ Section Subst.
       + destruct (lookup_binding _ _ L) as (w2 & r2 & Q2 & Wv & Sv).
         pose proof (IdQ_inv _ _ _ _ Q) as S1. pose proof (IdQ_inv _ _ _ _ Q2) as S2. assert (Ew : w2 = w) by congruence.
         split; [exact Wv|]. split; [simpl; congruence|]. simpl. unfold rho'. rewrite L.
-        destruct (wf_range IdQ rho mu iota v Wv) as [_ R]. rewrite Sv, Ew in R. symmetry. apply Z.mod_small. exact R.
+        destruct (wf_range false IdQ rho mu iota v Wv) as [_ R]. rewrite Sv, Ew in R. symmetry. apply Z.mod_small. exact R.
       + split; [exact W|]. split; [reflexivity|]. simpl. unfold rho'. rewrite L. reflexivity.
   Qed.
   (** an operator node whose operands are related pointwise *)
@@ -161,7 +161,7 @@ Section Subst.
   Lemma ints_nonneg ints : forallb wfq (map (fun '(sg, w, v) => EInt sg w v) ints) = true -> Forall (fun v => 0 <= v) (map (fun '(_, _, v) => v) ints).
   Proof.
     intros Wl. apply forallb_Forall in Wl. induction ints as [|[[sg w] v] l IH]; cbn [map] in *; constructor; inversion Wl; subst.
-    - apply (wf_int_inv IdQ rho mu iota sg w v); assumption.
+    - apply (wf_int_inv false IdQ rho mu iota sg w v); assumption.
     - apply IH; assumption.
   Qed.
   Lemma shift_len op n (ints : list (bool * Z * Z)) (f : bool * Z * Z -> expr) : args_ok op n (map f ints) = true ->
@@ -189,23 +189,23 @@ Section Subst.
        destruct (eval_const_op op w0 _) as [rv| |] eqn:C; try discriminate; cbn [bind] in H; inversion H; subst e'; clear H;
        rewrite Ea in *; inversion Eargs; subst a r;
        assert (W0 : wfq (EInt sg0 w0 v0) = true) by (apply forallb_Forall in Wl; inversion Wl; assumption);
-       destruct (wf_int_inv IdQ rho mu iota _ _ _ W0) as (-> & P0 & _ & _);
-       destruct (wf_int IdQ rho mu iota w0 rv P0) as (A & B & Cv);
+       destruct (wf_int_inv false IdQ rho mu iota _ _ _ W0) as (-> & P0 & _ & _);
+       destruct (wf_int false IdQ rho mu iota w0 rv P0) as (A & B & Cv);
        split; [exact A|]; split; [rewrite B; symmetry; apply (size_node op); simpl; lia|];
        rewrite Cv, eval_op_node, size_node by (simpl; lia); cbn [size];
-       rewrite (const_op_value op w0 _ rv F ltac:(lia) (ints_nonneg ((false, w0, v0) :: rest) Wl) ltac:(cbn [map hd]; apply (wf_int_inv IdQ rho mu iota _ _ _ W0)) (shift_len op _ ((false, w0, v0) :: rest) (fun '(sg, w, v) => EInt sg w v) S) (arity_vs op ((false, w0, v0) :: rest) O) C); f_equal;
+       rewrite (const_op_value op w0 _ rv F ltac:(lia) (ints_nonneg ((false, w0, v0) :: rest) Wl) ltac:(cbn [map hd]; apply (wf_int_inv false IdQ rho mu iota _ _ _ W0)) (shift_len op _ ((false, w0, v0) :: rest) (fun '(sg, w, v) => EInt sg w v) S) (arity_vs op ((false, w0, v0) :: rest) O) C); f_equal;
        (* the values of in-range unsigned constants are their payloads *)
        clear - Wl; apply forallb_Forall in Wl;
        change (EInt false w0 v0 :: map (fun '(sg, w, v) => EInt sg w v) rest) with (map (fun '(sg, w, v) => EInt sg w v) ((false, w0, v0) :: rest)) in *;
        generalize dependent ((false, w0, v0) :: rest); intros l Wl; induction l as [|[[sg w] v] l IH]; [reflexivity|];
-       cbn [map] in *; inversion Wl; subst; f_equal; [symmetry; apply (wf_int_inv IdQ rho mu iota sg w v); assumption | apply IH; assumption]).
+       cbn [map] in *; inversion Wl; subst; f_equal; [symmetry; apply (wf_int_inv false IdQ rho mu iota sg w v); assumption | apply IH; assumption]).
   Qed.
-  Lemma rel_after_good x y y' : rel x y -> good IdQ rho mu iota y y' -> rel x y'.
+  Lemma rel_after_good x y y' : rel x y -> good false IdQ rho mu iota y y' -> rel x y'.
   Proof. intros (A & B & C) (A' & B' & C'). split; [exact A'|]. split; congruence. Qed.
-  Lemma rel_of_good' x x1 y : good IdQ rho' mu iota x x1 -> rel x1 y -> rel x y.
+  Lemma rel_of_good' x x1 y : good false IdQ rho' mu iota x x1 -> rel x1 y -> rel x y.
   Proof. intros (A & B & C) (A' & B' & C'). split; [exact A'|]. split; congruence. Qed.
-  Lemma simpF_good r0 m0 i0 y y' : wfq y = true -> simpF y = Ok y' -> good IdQ r0 m0 i0 y y'.
-  Proof. intros W H. exact (simp_good IdQ r0 m0 i0 40 y y' W H). Qed.
+  Lemma simpF_good r0 m0 i0 y y' : wfq y = true -> simpF y = Ok y' -> good false IdQ r0 m0 i0 y y'.
+  Proof. intros W H. exact (simp_good false IdQ r0 m0 i0 40 y y' W H). Qed.
 
   Lemma mapX_rel (f0 : nat) : (forall x y, wfq x = true -> eval_expr f0 s x = inl (Ok y) -> rel x y) ->
     forall args args', Forall (fun a => wfq a = true) args ->
@@ -230,8 +230,9 @@ Section Subst.
       pose proof (id_rel n w r true W) as R. pose proof W as W'. simpl in W'. apply andb_true_iff in W' as [_ Q].
       rewrite (lookup_get _ _ _ _ Q) in R. exact R. }
     unfold lift at 1 in H. destruct (visitM simpF e) as [e1| |] eqn:V; simpl in H; try discriminate.
-    assert (G1 : good IdQ rho' mu iota e e1).
-    { apply (visit_good IdQ rho' mu iota simpF); [|exact W | exact V]. intros x x' Wx Hx. apply simpF_good; assumption. }
+    assert (G1 : good false IdQ rho' mu iota e e1).
+    { apply (visit_good false IdQ rho' mu iota simpF); [| |exact W | exact V]; [intros x x' Wx Hx; apply simpF_good; assumption|].
+      intros sg w v x' Hx. unfold simpF in Hx. cbn [simp visitM] in Hx. apply (loop_int _ _ _ _ _ _ Hx). }
     apply (rel_of_good' e e1 e' G1). destruct G1 as (W1 & _ & _). clear V W T e.
     destruct e1 as [sg w v|n w r t|addr w sg|op args|c a b|sa lo hi| |]; try (simpl in W1; discriminate).
     - inversion H; subst. split; [exact W1|]. split; reflexivity.
@@ -283,13 +284,13 @@ Section Subst.
         - simpl. exact Sa'.
         - simpl. rewrite Evc, Eva, Evb. reflexivity. }
       destruct c' as [sgc wc vc| | | | | | |]; try (inversion H; subst e'; exact Gen).
-      inversion H; subst e'. destruct (wf_int_inv IdQ rho mu iota _ _ _ Wc') as (_ & _ & _ & Ev0).
+      inversion H; subst e'. destruct (wf_int_inv false IdQ rho mu iota _ _ _ Wc') as (_ & _ & _ & Ev0).
       assert (Q : (vc =? 0) = (ev' c =? 0)) by (rewrite <- Evc, Ev0; reflexivity).
       destruct (vc =? 0) eqn:Z0.
       + split; [exact Wb'|]. split; [simpl; congruence|]. simpl. rewrite <- Q. exact Evb.
       + split; [exact Wa'|]. split; [simpl; congruence|]. simpl. rewrite <- Q. exact Eva.
     - (* slice *)
-      destruct (wf_slice_inv IdQ _ _ _ W1) as (Wsa & L0 & Llh & Lhs).
+      destruct (wf_slice_inv false IdQ _ _ _ W1) as (Wsa & L0 & Llh & Lhs).
       destruct (eval_expr f s sa) as [[y| |]|] eqn:Ea; simpl in H; try discriminate.
       unfold lift at 1 in H. destruct (simpF y) as [a'| |] eqn:Es; simpl in H; try discriminate.
       assert (Ra : rel sa a') by (apply (rel_after_good sa y a' (IH _ _ Wsa Ea)); apply simpF_good; [apply (IH _ _ Wsa Ea) | exact Es]).
@@ -305,15 +306,15 @@ Section Subst.
         apply andb_true_iff in Full as [F1 F2]. apply Z.eqb_eq in F1, F2. subst lo hi. simpl in Sa'.
         split; [exact Wa'|]. split; [simpl; lia|].
         rewrite Eva. change (ev' (ESlice sa 0 wm)) with (wrap (wm - 0) (Z.shiftr (ev' sa) 0)).
-        destruct (wf_range IdQ rho' mu iota sa Wsa) as [_ R]. rewrite <- Sa' in R. symmetry. rewrite Z.shiftr_0_r, Z.sub_0_r. apply Z.mod_small. exact R.
+        destruct (wf_range false IdQ rho' mu iota sa Wsa) as [_ R]. rewrite <- Sa' in R. symmetry. rewrite Z.shiftr_0_r, Z.sub_0_r. apply Z.mod_small. exact R.
   Qed.
 End Subst.
 
 (** * The theorem *)
 Theorem eval_expr_is_substitution : forall (Sig : string -> Z * bool * bool) (s : pool),
   pool_mem s = [] -> Forall (binding_ok Sig) (pool_id s) ->
-  forall fuel e e', wf (IdQ Sig) e = true -> eval_expr fuel s e = inl (Ok e') ->
-  wf (IdQ Sig) e' = true /\ size e' = size e /\
+  forall fuel e e', wf false (IdQ Sig) e = true -> eval_expr fuel s e = inl (Ok e') ->
+  wf false (IdQ Sig) e' = true /\ size e' = size e /\
   forall rho mu iota, eval rho mu iota e' = eval (rho' s rho mu iota) mu iota e.
 Proof.
   intros Sig s Hm Hp fuel e e' W H.
